@@ -478,7 +478,8 @@ def impl_flags(c):
     from mrpro.data.traj_calculators import KTrajectoryCartesian
     fn = os.path.join(_tmpdir(), f'c14f_{os.getpid()}.h5')
     acqs = [{'id': 1, 'labels': {'k1': 0}, 'flags': 0, 'coils': 1, 'center': 1},
-            {'id': 2, 'labels': {'k1': 1}, 'flags': 1 << (c['flag_bit'] - 1), 'coils': 1, 'center': 1}]
+            {'id': 2, 'labels': {'k1': 1}, 'flags': 1 << (c['flag_bit'] - 1), 'coils': 1, 'center': 1},
+            {'id': 3, 'labels': {'k1': 2}, 'flags': 0, 'coils': 1, 'center': 1}]
     W.write_file(fn, acqs, n_k0=2)
     try:
         kd = KData.from_file(fn, KTrajectoryCartesian())
@@ -492,14 +493,14 @@ def coq_flags(c):
 
 
 def cmp_flags(c, o, m):
-    got = (o == [1, 2])
+    got = (o == [1, 2, 3])
     return None if got == m else f'flag {c["flag_bit"]}: model keeps={m}, impl loaded {o}'
 
 
 def oracle_flags(c, o):
     if isinstance(o, dict):
-        return f'file with one plain and one flagged readout fails to load: {o}'
-    want = [1] if c['flag_bit'] in REJECTED_FLAGS else [1, 2]
+        return f'file with two plain readouts and one flagged readout fails to load: {o}'
+    want = [1, 3] if c['flag_bit'] in REJECTED_FLAGS else [1, 2, 3]
     if o != want:
         return (f'readout with only ISMRMRD flag number {c["flag_bit"]} set: loaded ids {o}, expected {want} '
                 '(noise/calibration/navigation/phase-correction/feedback/dummy/phase-stabilisation are dropped, everything else is image data)')
@@ -674,15 +675,16 @@ def extra_checks(ctx):
         ns, n = c['n_spokes'], c['n_k0']
         model = [float(x) for x in v['some']]
         tr = np.array(o['traj']).reshape(3, ns, n)[2 - d]
-        got = [tr[pos][j] for pos in np.argsort(np.argsort(o['ids'])) for j in range(n)]
+        got = [tr[pos][j] for pos in range(ns) for j in range(n)]
+        model = [model[(o['ids'][pos] - 1) * n + j] for pos in range(ns) for j in range(n)]
         ctx.traces_validated += 1
-        if any(not _tol_eq(a, b, 1e-4) for a, b in zip(got, model)):
+        if len(got) != len(model) or any(not _tol_eq(a, b, 1e-4) for a, b in zip(got, model)):
             ctx.problem('correspondence', 'pulseq_model', c, f'axis {d}: model {model[:6]}... impl {got[:6]}...')
     shutil.rmtree(_tmpdir(), ignore_errors=True)
 
 
 def descr_load(c):
-    return {'variant': c['variant'], 'traj': c['traj'], 'n_acq': len(c['acqs'])}
+    return {'variant': c['variant'], 'traj': c['traj'], 'n_acq': len(c['acqs']), 'n_kept': len(expected_kept(c))}
 
 
 def nontrivial_load(c):
